@@ -28,10 +28,13 @@ KB == <<"b">>
 TKc == <<"#", "t", "e", "x", "t">>
 MElem == VM(KA :> VS(s))
 MAttr == VM(KA :> VM(KX :> VS(s)))
+KY == <<"-", "y">>
+S2 == <<"&">> \o s \o <<"<">>                          \* a second, different value that needs escaping too
+MAttr2 == VM(KA :> VM((KX :> VS(s)) @@ (KY :> VS(S2))))   \* two escaped attribute values in one start tag
 MMixed == VM(KA :> VM((TKc :> VS(s)) @@ (KB :> VS(<<>>))))
 MList == VM(KA :> VL(<<VS(s), VS(<<"x">>)>>))       \* single key, list with non-map members: the default root is used
 R(m) == Join(RenderCompact(EncodeRoot(m, <<>>, EO1), EO1))
-Emit == DoEmit => PrintT(ToJson([f |-> "esc", s |-> Join(s), e |-> Join(XmlEscape(s)), xe |-> R(MElem), xa |-> R(MAttr), xm |-> R(MMixed), xl |-> R(MList),
+Emit == DoEmit => PrintT(ToJson([f |-> "esc", s |-> Join(s), e |-> Join(XmlEscape(s)), xe |-> R(MElem), xa |-> R(MAttr), xa2 |-> R(MAttr2), s2 |-> Join(S2), xm |-> R(MMixed), xl |-> R(MList),
                                  rawok |-> RawOK(s)]))
 C(x) == <<x>>
 cChunks == {C("&"), C("<"), C(">"), C("\""), C("'"), C("a"), C(";"), C("#"), C(" "),
